@@ -25,6 +25,10 @@ def observe(ctx, S):
     return (impl.kind(S) if hasattr(S, "jordans") else "Jordan", canon, tuple(round(float(j), 9) for j in js), mem)
 
 
+from decimal import Decimal
+from fractions import Fraction
+
+
 def run(ctx):
     from shapepy import IntegrateShape, ConnectedShape
     rng, drv = ctx.rng, ctx.drv
@@ -78,12 +82,15 @@ def run(ctx):
     # ---- invalid arguments of the in-place transformations
     bad_calls = [("move", ("ab",)), ("move", ((1,),)), ("move", (None,)), ("move", ("a", "b")), ("move", ((1, 2, 3),)),
                  ("scale", ("x", 1)), ("scale", (1, None)), ("scale", (2, "y")), ("scale", ([1], 2)),
-                 ("rotate", ("a",)), ("rotate", (None,)), ("rotate", ([1],)), ("rotate", ("a", True))]
+                 ("rotate", ("a",)), ("rotate", (None,)), ("rotate", ([1],)), ("rotate", ("a", True)),
+                 # arguments whose FIRST component is fine and whose second one is only rejected by the arithmetic itself (float() accepts it)
+                 ("scale", (2, Decimal("1.5"))), ("scale", (Fraction(3, 2), "2")), ("scale", (2, b"3")), ("scale", (Decimal("2"), 3)),
+                 ("move", (2, "1.5")), ("move", ((Fraction(1, 2), Decimal("3")),)), ("move", (2, None)), ("move", ((1, [2]),))]
     for kind in shapes.DEFINED:
         S, d = shapes.make(rng, kind, rng.randint(-2, 2), rng.randint(-2, 2), drv)
         for target, tname in ((S, "shape"), (S.jordans[0], "curve")):
-            ref = observe(ctx, S)
             for meth, args in bad_calls:
+                ref = observe(ctx, S)
                 ctx.case("invalid-argument", (kind, tname, meth, repr(args)))
                 try:
                     getattr(target, meth)(*args)
